@@ -23,6 +23,27 @@ def answer (line : String) : String :=
     match Rule.ofName? r with
     | some r => withTree rest fun t _ => " ".intercalate ("nodes" :: (findNodes r t).map toString)
     | none => "bad-op"
+  | ["tok", pad, text] =>
+    match textOfWire text with
+    | some cs =>
+      match tokenize (pad == "1") cs with
+      | .ok ts => " ".intercalate ("toks" :: ts.map Tok.toWire)
+      | .error c => s!"badchar {c.toNat}"
+    | none => "bad-op"
+  | ["parse", text] =>
+    match textOfWire text with
+    | some cs => (parseText cs).toWire
+    | none => "bad-op"
+  | "print" :: rest => withTree rest fun t _ =>
+      " ".intercalate ("toks" :: (printRoot showRat t).map Tok.toWire)
+  | "reparse" :: rest => withTree rest fun t _ =>
+      match parseToks (printRoot showRat t) with
+      | .ok e => s!"ok {e.toWire}"
+      | .error e => s!"perr {e.name}"
+  | "hist" :: ops =>
+    match ops.mapM POp.ofWire with
+    | some ops => " ; ".intercalate ((runOps PState.init [] ops).map POut.toWire)
+    | none => "bad-op"
   | "eval" :: rest => withTree rest fun t env => (eval (envOfWire env) t).toWire
   | _ => "bad-op"
 
